@@ -261,6 +261,8 @@ func c01(c *Ctx) (*report.Result, error) {
 	}
 	res.Explanation = "SSA of proxyStreamReceiver.sendAck (reduction classification of the aggregation loop over ackByTarget: accumulator phi, comparison normalised to MIN/MAX, absence of any filtering condition), proxyIDRingBuffer.AggregateUpTo (MAX per source, hole skip), proxyStreamSender.recvAck (identity of the count passed to Discard with the count returned by AggregateUpTo, must-pass-through of the completed forwarding loop, decrement only on a true delivery) and the watermark-only branch of recvReplicationMessages (ranges over the complete channel table of the target cluster and all remote shards). These are necessary shapes of 'never acknowledge an unconfirmed task'; the behavioural statement over all interleavings of target acknowledgements is not decided (see DESIGN.md section 7, including the observation that a target that has not reported yet does not constrain the minimum)."
 	res.Assumptions = []string{"values are only compared and copied in these loops, so the MIN/MAX classification is exact"}
+	res.RuleDoc["O1.10"] = "no swallowed error in the files the mechanism lives in: no function returns a nil error on a path on which an error obtained from a call is known to be non-nil (io.EOF from a stream Recv, the normal end of a receive loop, is the one accepted idiom)"
+	checkNoSwallowedErrors(c, res, "O1.10", []string{"proxy/proxy_streams.go", "proxy/intra_proxy_router.go", "proxy/shard_manager.go"})
 	return res, nil
 }
 
@@ -703,6 +705,8 @@ func c03(c *Ctx) (*report.Result, error) {
 	}
 	res.Explanation = "SSA of proxyStreamReceiver.sendAck: the guards dominating the Send of a freshly aggregated acknowledgement (not-first, not below lastSentMin), the phi feeding InclusiveLowWatermark (raw minimum only on edges where it does not exceed a known source high watermark, the clamp otherwise), a who-may-write inventory of lastSentMin / lastSentAck / lastExclusiveHighOriginal over package proxy, and the keep-alive's argument. Decides 'never decrease, never exceed the last exclusive high watermark' as shapes on every path; 'eventually equals the final high watermark' is a liveness statement over schedules and is not decided."
 	res.Assumptions = []string{"one sendAck goroutine per receiver incarnation writes lastSentMin"}
+	res.RuleDoc["O3.8"] = "no swallowed error in the files the mechanism lives in: no function returns a nil error on a path on which an error obtained from a call is known to be non-nil (io.EOF from a stream Recv, the normal end of a receive loop, is the one accepted idiom)"
+	checkNoSwallowedErrors(c, res, "O3.8", []string{"proxy/proxy_streams.go"})
 	return res, nil
 }
 
